@@ -3,7 +3,7 @@
 From Coq Require Import List Arith NArith Bool Lia.
 Import ListNotations.
 Require Import MText MRound MRound2 MRound3 MkModel MkEval MkEvalP MkGroupsP MkFmtP MkShapeP MkRoundP MkLexP MkLayoutP.
-Require Names.
+Require Names NamesLaws.
 Open Scope N_scope.
 Arguments N.eqb : simpl never.
 Arguments N.leb : simpl never.
@@ -58,13 +58,13 @@ Proof.
     destruct (side_value env l) as [a|]; [|reflexivity].
     assert (K : str_eqb (env_key l (SVal (Names.canon_name v))) w_extra = true) by (rewrite env_key_extra, El; reflexivity).
     assert (K' : str_eqb (env_key l (SVal v)) w_extra = true) by (rewrite env_key_extra, El; reflexivity).
-    unfold normalize. rewrite K, K'. now rewrite Names.C13_canon_idempotent.
+    unfold normalize. rewrite K, K'. now rewrite NamesLaws.canon_idempotent.
   - destruct (is_extra r) eqn:Er; [|reflexivity].
     destruct l as [n|v]; [reflexivity|]. cbn [geval_e]. unfold eval_item. cbn [side_value].
     destruct (side_value env r) as [b|]; [|reflexivity].
     assert (K : str_eqb (env_key (SVal (Names.canon_name v)) r) w_extra = true) by (rewrite env_key_extra, Er; reflexivity).
     assert (K' : str_eqb (env_key (SVal v) r) w_extra = true) by (rewrite env_key_extra, Er; reflexivity).
-    unfold normalize. rewrite K, K'. now rewrite Names.C13_canon_idempotent.
+    unfold normalize. rewrite K, K'. now rewrite NamesLaws.canon_idempotent.
 Qed.
 Lemma norm_is_bool e : is_bool (norm_e e) = is_bool e.
 Proof. destruct e as [l o r| |]; try reflexivity. cbn [norm_e]. destruct (norm_item_item l o r) as (l' & r' & ->). reflexivity. Qed.
